@@ -21,6 +21,7 @@ from pv.modes import Modes, brief, brief_ref, ref_tree, run, shift_tree, strip_t
 from pv.ref.refpeg import Abstain, Ref, features, grammar_text, uses_soi
 
 ABSTAIN = "ABSTAIN"
+ABSTAIN_REF_ONLY = "ABSTAIN_REF_ONLY"  # the statements leave the RESULT open, but totality / relative / invariant judges still apply
 KINDS = {
     "str", "ci", "range", "builtin", "any", "soi", "eoi", "ref", "seq", "alt", "opt", "star", "plus",
     "exact", "min", "max", "minmax", "and", "not", "push", "pushlit", "peek", "peekall", "pop",
@@ -59,9 +60,17 @@ def gen_grammars(shard: dict):
         for i in range(shard["count"]):
             rnd = random.Random(seed_int(shard["seed"], "sc", i))
             yield f"stackscen/{shard['seed']}/{i}", G.stack_scenario(rnd)
+    elif src == "coretrees":
+        for idx in shard["indices"]:
+            yield G.core_tree_case(shard["depth"], idx)
     elif src == "stackdig":
         for idx in shard["indices"]:
             label, rules, inputs = G.stack_dig_case(idx)
+            EXTRA_INPUTS[label] = inputs
+            yield label, rules
+    elif src == "opttargets":
+        for idx in shard["indices"]:
+            label, rules, inputs = G.opt_target_case(idx)
             EXTRA_INPUTS[label] = inputs
             yield label, rules
     elif src == "matrix":
@@ -374,7 +383,9 @@ def prepare_case(gc: GCase, shard: dict, rnd: random.Random, acc: Acc) -> bool:
                     for k, v in ref.ev.items():
                         acc.c["ref." + k] += v
                 except Abstain as a:
-                    refres[(rule, inp, st)] = ABSTAIN
+                    refres[(rule, inp, st)] = ABSTAIN_REF_ONLY if str(a).startswith("slice bound") else ABSTAIN
+                    if str(a).startswith("slice bound"):
+                        refev[(rule, inp, st)] = (ref.steps, ref.maxdepth)
                     acc.count("abstain." + str(a).replace(" ", "_"))
                 except RecursionError:
                     refres[(rule, inp, st)] = ABSTAIN
@@ -384,20 +395,35 @@ def prepare_case(gc: GCase, shard: dict, rnd: random.Random, acc: Acc) -> bool:
     return True
 
 
-def pipeline_configs(seed: int, label: str, n: int):
+_ORDERED: dict[int, list[tuple[int, ...]]] = {}
+
+
+def ordered_subsets(k: int) -> list[tuple[int, ...]]:
+    """Every non-empty ordered selection without repetition of k passes (325 for k = 5)."""
+    if k not in _ORDERED:
+        import itertools
+
+        _ORDERED[k] = [p for n in range(1, k + 1) for p in itertools.permutations(range(k), n)]
+    return _ORDERED[k]
+
+
+def pipeline_configs(seed: int, label: str, n: int, mode: str = "mixed"):
     """Seeded optimizer configurations drawn from DEFAULT_OPTIMIZER_PASSES (C02)."""
     from pest import DEFAULT_OPTIMIZER_PASSES
 
     rnd = random.Random(seed_int(seed, "pipe", label))
     k = len(DEFAULT_OPTIMIZER_PASSES)
+    if mode == "ordered":
+        allp = ordered_subsets(k)
+        return list(allp) if n <= 0 or n >= len(allp) else rnd.sample(allp, n)
     cfgs: list[tuple[int, ...]] = []
     singles = list(range(k))
     rnd.shuffle(singles)
     for i in range(n):
         c = rnd.random()
-        if i < 2 or c < 0.3:
+        if i < 1 or c < 0.2:
             cfgs.append((singles[i % k],))
-        elif c < 0.55:
+        elif c < 0.4:
             cfgs.append(tuple(sorted(rnd.sample(range(k), rnd.randint(2, k)))))  # subset, default order
         elif c < 0.8:
             cfgs.append(tuple(rnd.sample(range(k), rnd.randint(2, k))))  # permutation of a subset
@@ -452,7 +478,7 @@ def worker(shard: dict) -> dict:  # noqa: PLR0912, PLR0915
             if phase == "O" and npipes and "I" in gc.u_results.get("_built", {"I": 1}):
                 from pest import DEFAULT_OPTIMIZER_PASSES, Optimizer
 
-                for ci, cfg in enumerate(pipeline_configs(shard["seed"], gc.label, npipes)):
+                for ci, cfg in enumerate(pipeline_configs(shard["seed"], gc.label, npipes, shard.get("pipeline_mode", "mixed"))):
                     key = f"P{ci}"
                     opt = Optimizer([DEFAULT_OPTIMIZER_PASSES[i] for i in cfg])
                     names = [DEFAULT_OPTIMIZER_PASSES[i].name for i in cfg]
@@ -469,6 +495,8 @@ def worker(shard: dict) -> dict:  # noqa: PLR0912, PLR0915
                         continue
                     acc.count("c02.pipelines_built")
                     acc.count("c02.pipeline_kind." + ("single" if len(cfg) == 1 else "multi"))
+                    if shard.get("pipeline_mode") == "ordered":
+                        acc.add_to("c02.ordered_pass_selections", ">".join(names))
                     for line in opt.log:
                         acc.count("c02.rewrites_fired." + line.split("(", 1)[0])
                     md.objs[key] = po
@@ -510,6 +538,12 @@ def worker(shard: dict) -> dict:  # noqa: PLR0912, PLR0915
             for (rule, inp, st), want in gc.refres.items():
                 if want is ABSTAIN:
                     continue
+                ref_only = want is ABSTAIN_REF_ONLY
+                if ref_only:
+                    if judges <= {"ref", "t1"}:
+                        continue
+                    want = None
+                    acc.count("cases_judged_without_reference_result")
                 steps, depth = gc.refev[(rule, inp, st)]
                 if depth > 60:
                     acc.count("abstain.deep_input")
@@ -530,7 +564,7 @@ def worker(shard: dict) -> dict:  # noqa: PLR0912, PLR0915
                     acc.count(f"outcome.{m if m in ('I', 'GI', 'O', 'GO') else ('GP' if m[0] == 'G' else 'P')}.{res[0]}")
                     raw = keep[0] if keep else None
                     # ---------- reference judge (C03 / C04 / C05)
-                    if "ref" in judges:
+                    if "ref" in judges and not ref_only:
                         acc.count("ref.comparisons")
                         if res[0] == "ok":
                             got = strip_tags(res[1])
@@ -663,7 +697,7 @@ def worker(shard: dict) -> dict:  # noqa: PLR0912, PLR0915
                                 rep.violation("c02", ("G" if b.startswith("G") else "interp", single, f"{ra[0]}-vs-{rb[0]}"), gc, rule, inp, st, b, brief(ra), brief(rb), {"pipeline": desc})
                 if want is not None or inp:
                     distinct_here += 1
-                if acc.c["parses"] >= sample_at and len(acc.samples) < 3 and want is not None and want:
+                if acc.c["parses"] >= sample_at and len(acc.samples) < 3 and want is not None and want and not ref_only:
                     acc.sample({"grammar": gc.text, "rule": rule, "input": inp, "start": st, "reference": brief_ref(want), "observed": {m: brief(r) for m, r in results.items()}})
             if "c01" in judges:
                 # lazily filled caches must not leak into the generated source
